@@ -62,7 +62,7 @@ EVENTS = [f'F{i}' for i in range(NSPEC)] + ['RW'] + [f'M:{m}' for m in MUTS] + [
 
 
 def depth(tier):
-    return 3 if tier == 'quick' else 4
+    return 3 if tier == 'quick' else 5
 
 
 def bounds(tier):
